@@ -274,6 +274,15 @@ def candidates(p: Procedure, rng: random.Random, configs=(), other_procs=(), lim
                     acc.append("0:%s" % d)
             w = "%s[%s]" % (bn, ", ".join(acc))
             add("stage_mem", "%s win=%s" % (path_of(b), w), lambda b=b, w=w: S.stage_mem(p, b, w, nm("stg")))
+            # windows that move with an enclosing loop and overrun the source at either end (safety guards)
+            try:
+                par = b.parent()
+                it = par.name() if isinstance(par._impl._node, LoopIR.For) else None
+            except Exception:
+                it = None
+            if it and len(hi) == 1:
+                for w2 in pick(["%s[%s-1:%s+1]" % (bn, it, it), "%s[%s:%s+2]" % (bn, it, it), "%s[%s-1:%s+2]" % (bn, it, it)], 2):
+                    add("stage_mem", "%s win=%s" % (path_of(b), w2), lambda b=b, w2=w2: S.stage_mem(p, b, w2, nm("stg")))
     # configuration operations
     for cfg in configs:
         for e in pick([e for e in st.reads if not list(e.idx()) and e._impl._node.type.is_indexable()], 2):
